@@ -69,7 +69,7 @@ fn draw_amount(rng: &mut Rng) -> u64 {
 }
 
 /// a random route of `n` hops with recipient fields of the given kind
-fn draw_case(ctx: &Ctx, rng: &mut Rng, n: usize, big_recipient: bool) -> Case {
+fn draw_case(ctx: &Ctx, rng: &mut Rng, n: usize, big_recipient: bool, tiny: bool) -> Case {
 	let mut order: Vec<usize> = (0..MAX_NODES).collect();
 	for i in 0..n { let j = i + rng.below((MAX_NODES - i) as u64) as usize; order.swap(i, j); }
 	order.truncate(n);
@@ -77,13 +77,13 @@ fn draw_case(ctx: &Ctx, rng: &mut Rng, n: usize, big_recipient: bool) -> Case {
 	let mut hops = vec![];
 	for i in 0..n {
 		let last = i == n - 1;
-		let fee = if last { draw_amount(rng).max(1) } else { draw_amount(rng) };
+		let fee = if tiny { if last { rng.range(1, 200) } else { 0 } } else if last { draw_amount(rng).max(1) } else { draw_amount(rng) };
 		let delta = if last { rng.range(60, 400) as u32 } else { min_delta + rng.below(60) as u32 };
 		hops.push(RouteHop { pubkey: ctx.ids[order[i]], node_features: NodeFeatures::empty(), short_channel_id: (rng.next() | 1) ^ ((i as u64) << 56),
 			channel_features: ChannelFeatures::empty(), fee_msat: fee, cltv_expiry_delta: delta, maybe_announced_channel: true });
 	}
 	let final_value = hops[n - 1].fee_msat;
-	let total = if rng.chance(1, 3) { final_value + draw_amount(rng) } else { final_value };
+	let total = if !tiny && rng.chance(1, 3) { final_value + draw_amount(rng) } else { final_value };
 	let keysend_kind = rng.below(5); // 0: keysend without secret, 1: keysend with secret, else invoice payment
 	let mut rof = if keysend_kind == 0 { RecipientOnionFields::spontaneous_empty(total) } else { RecipientOnionFields::secret_only(PaymentSecret(rng.bytes32()), total) };
 	let (meta_max, tlv_max) = if big_recipient { (700, 400) } else { (40, 24) };
@@ -95,7 +95,7 @@ fn draw_case(ctx: &Ctx, rng: &mut Rng, n: usize, big_recipient: bool) -> Case {
 	}
 	let (keysend, hash) = if keysend_kind <= 1 { let p = rng.bytes32(); (Some(PaymentPreimage(p)), PaymentHash(Sha256::hash(&p).to_byte_array())) } else { (None, PaymentHash(rng.bytes32())) };
 	let mut sk = rng.bytes32(); sk[0] &= 0x7f; if sk == [0; 32] { sk[31] = 1; }
-	Case { path: Path { hops, blinded_tail: None }, rof, keysend, hash, height: rng.range(1000, 900_000) as u32, session: SecretKey::from_slice(&sk).unwrap(), seed: rng.bytes32(), order }
+	Case { path: Path { hops, blinded_tail: None }, rof, keysend, hash, height: if tiny { rng.range(100, 250) } else { rng.range(1000, 900_000) } as u32, session: SecretKey::from_slice(&sk).unwrap(), seed: rng.bytes32(), order }
 }
 
 fn add_htlc(c: &Case, i: usize, onion: OnionPacket, hash: PaymentHash) -> UpdateAddHTLC {
@@ -137,7 +137,8 @@ fn main() {
 		let c = {
 			let lim = if rng.chance(1, 3) { 26 } else { 8 };
 			let want = if mode < 4 { 28 } else { 1 + rng.below(lim) as usize };
-			let mut c = draw_case(&ctx, &mut rng, want, big);
+			let tiny = !big && rng.chance(1, 5);
+			let mut c = draw_case(&ctx, &mut rng, want, big, tiny);
 			if mode < 4 {
 				// longest suffix of the drawn route that still fits (sizes from the real payload builder)
 				let mut n_fit = 0;
